@@ -32,6 +32,13 @@ DIRECTED = [
     # a name read before its first assignment is null whatever ran before in this process or on this thread
     "stel a = 1; stel b = b; b", "stel p = 10; stel q = 32; stel r = r; [p, q, r]", "stel f = functie() { g }; stel g = g; g", "stel x = x; stel y = y; stel z = z; [x, y, z]",
     "stel s = \"tekst\"; stel t = [s, 2.5]; stel u = u; u",
+    # ... also inside a fresh activation: parameters that got no argument and locals read in their own initialiser, at
+    # every slot depth, next to programs that leave the operand stack full of other things
+    "functie f(a, b, c, d, e) { [a, b, c, d, e] } f()", "functie f(a, b, c) { stel x = x; stel y = y; [a, b, c, x, y] } f(1)",
+    "functie g(n) { als n > 0 { antwoord g(n - 1) } stel diep = diep; [n, diep] } g(30)", "[11, 22, 33, 44, 55, 66, 77, 88, 99, 110, 121, 132]",
+    "functie vul(a, b, c, d, e, f) { [a, b, c, d, e, f] } vul(\"a\", [1], 2.5, 4, ja, 6)", "functie h() { stel p = p; stel q = [q]; als ja { stel r = r; [p, q, r] } } h()",
+    "functie k(a, b) { als a { b } anders { type(b) } } [k(ja), k(nee)]", "functie som(a, b, c, d) { stel t = 0; als type(a) == \"int\" { t += a } als type(d) == \"int\" { t += d } t } [som(1), som(1, 2, 3, 4), som()]",
+    "functie m(a, b, c, d, e, f, g, h) { stel l1 = l1; stel l2 = l2; stel l3 = l3; [h, l1, l2, l3] } functie vol() { [1.5, \"x\", [2], 3, 4, 5, 6, 7, 8, 9] } vol(); m(1)",
 ]
 
 
